@@ -30,6 +30,7 @@ func (g *gen) add(s Step)      { g.steps = append(g.steps, s) }
 func (g *gen) user() string    { return fmt.Sprintf("@u%d", g.r.Intn(nUsers)) }
 func (g *gen) pick(xs ...string) string { return xs[g.r.Intn(len(xs))] }
 
+const two255 = "57896044618658097711785492504343953926634992332820282019728792003956564819968"
 const two128 = "340282366920938463463374607431768211456"
 const maxInt = "115792089237316195423570985008687907853269984665640564039457584007913129639935" // 2^256-1
 
@@ -187,7 +188,7 @@ func (g *gen) setup() {
 // balanceOf is not a view of a ledger; they are only produced by the targeted "misreport" scenario.
 func (g *gen) advCfg(ti int) {
 	r := g.r
-	switch r.Intn(9) {
+	switch r.Intn(8) {
 	case 0:
 		g.add(Step{Op: "token_cfg", Tok: ti, Slot: 1, Amount: fmt.Sprint(1 + r.Intn(3))}) // sender-side fee
 	case 1:
@@ -198,9 +199,10 @@ func (g *gen) advCfg(ti int) {
 		g.add(Step{Op: "token_cfg", Tok: ti, Slot: 4, Amount: fmt.Sprint(1 + r.Intn(3))}) // log games
 	case 4:
 		g.add(Step{Op: "token_cfg", Tok: ti, Slot: 5, Amount: fmt.Sprint(1 + r.Intn(2))}) // balanceOf fails
-	case 5:
-		g.add(Step{Op: "token_cfg", Tok: ti, Slot: r.Intn(6), Amount: "0"}) // back to honest
-	default:
+	default: // back to honest
+		for sl := 1; sl <= 5; sl++ {
+			g.add(Step{Op: "token_cfg", Tok: ti, Slot: sl, Amount: "0"})
+		}
 	}
 }
 
@@ -234,9 +236,17 @@ func (g *gen) denomOf(ti int) string {
 	return d
 }
 
+// misbehave: with some probability the adversary reconfigures an AdvToken right before a conversion through it
+func (g *gen) misbehave(ti int) {
+	if ti < len(g.toks) && g.toks[ti].kind == kindAdv && g.r.Chance(1, 4) {
+		g.advCfg(ti)
+	}
+}
+
 func (g *gen) convertCoin() {
 	r := g.r
 	ti := g.tokIndex()
+	g.misbehave(ti)
 	s := "@rich"
 	if r.Chance(1, 6) {
 		s = g.user()
@@ -254,6 +264,7 @@ func (g *gen) convertCoin() {
 func (g *gen) convertERC20() {
 	r := g.r
 	ti := g.tokIndex()
+	g.misbehave(ti)
 	s := "@rich"
 	if r.Chance(1, 6) {
 		s = g.user()
@@ -398,12 +409,13 @@ func targeted() []Spec {
 	}})
 	// overflow of sdk.Int in the voucher supply: two holders of 2^255-1 tokens
 	out = append(out, Spec{Tag: "voucher-overflow", Steps: []Step{
-		{Op: "deploy", Kind: kindStd, From: "@u0"},
-		{Op: "token_mint", Tok: 0, To: "@u1", Amount: huge},
-		{Op: "token_mint", Tok: 0, To: "@u2", Amount: huge},
+		{Op: "deploy", Kind: kindAdv, From: "@u0"},
+		{Op: "token_mint", Tok: 0, To: "@u1", Amount: two255},
+		{Op: "token_mint", Tok: 0, To: "@u2", Amount: two255},
 		{Op: "register_erc20", Tok: 0},
-		{Op: "convert_erc20", Sender: "@u1", Receiver: "@u1", Contract: "@tok0", Denom: "@tok0.voucher", Amount: huge, Via: "tx"},
-		{Op: "convert_erc20", Sender: "@u2", Receiver: "@u2", Contract: "@tok0", Denom: "@tok0.voucher", Amount: huge, Via: "tx"},
+		{Op: "convert_erc20", Sender: "@u1", Receiver: "@u1", Contract: "@tok0", Denom: "@tok0.voucher", Amount: two255, Via: "tx"},
+		{Op: "convert_erc20", Sender: "@u2", Receiver: "@u2", Contract: "@tok0", Denom: "@tok0.voucher", Amount: two255, Via: "tx"},
+		{Op: "convert_erc20", Sender: "@u2", Receiver: "@u1", Contract: "@tok0", Denom: "@tok0.voucher", Amount: two255, Via: "server"},
 		{Op: "convert_erc20", Sender: "@u2", Receiver: "@u1", Contract: "@tok0", Denom: "@tok0.voucher", Amount: "1", Via: "server"},
 	}})
 	// self-destructed external contract: the pair is deleted by the next conversion
@@ -415,6 +427,69 @@ func targeted() []Spec {
 		{Op: "token_kill", Tok: 0},
 		{Op: "convert_coin", Sender: "@u1", Receiver: "@u1", Denom: "@tok0.voucher", Amount: "5", Via: "tx"},
 		{Op: "convert_coin", Sender: "@u1", Receiver: "@u1", Denom: "@tok0.voucher", Amount: "5", Via: "tx"},
+	}})
+	// every misbehaviour of the AdvToken, one at a time, with a conversion in each direction
+	{
+		st := []Step{
+			{Op: "deploy", Kind: kindAdv, From: "@u0"},
+			{Op: "token_mint", Tok: 0, To: "@u1", Amount: "1000"},
+			{Op: "register_erc20", Tok: 0},
+			{Op: "convert_erc20", Sender: "@u1", Receiver: "@u1", Contract: "@tok0", Denom: "@tok0.voucher", Amount: "200", Via: "tx"},
+		}
+		for _, c := range [][2]int{{3, 1}, {3, 2}, {3, 3}, {3, 4}, {4, 1}, {4, 2}, {4, 3}, {5, 1}, {5, 2}, {2, 1}, {2, 9}} {
+			st = append(st,
+				Step{Op: "token_cfg", Tok: 0, Slot: c[0], Amount: fmt.Sprint(c[1])},
+				Step{Op: "convert_coin", Sender: "@u1", Receiver: "@u2", Denom: "@tok0.voucher", Amount: "5", Via: "tx"},
+				Step{Op: "convert_erc20", Sender: "@u1", Receiver: "@u1", Contract: "@tok0", Denom: "@tok0.voucher", Amount: "5", Via: "server"},
+				Step{Op: "token_cfg", Tok: 0, Slot: c[0], Amount: "0"},
+				Step{Op: "convert_coin", Sender: "@u1", Receiver: "@u2", Denom: "@tok0.voucher", Amount: "1", Via: "server"},
+			)
+		}
+		out = append(out, Spec{Tag: "adv-modes", Steps: st})
+	}
+	// a token whose balanceOf is not a view of its ledger (Refuted: C11_voucher_backing_misreport_refuted): the
+	// escrow check of convertERC20NativeToken passes although nothing was transferred
+	out = append(out, Spec{Tag: "misreport", Steps: []Step{
+		{Op: "deploy", Kind: kindAdv, From: "@u0"},
+		{Op: "token_mint", Tok: 0, To: "@u1", Amount: "1000"},
+		{Op: "register_erc20", Tok: 0},
+		{Op: "token_cfg", Tok: 0, Slot: 7, To: "@module"},
+		{Op: "token_cfg", Tok: 0, Slot: 9, Amount: "1"},
+		{Op: "convert_erc20", Sender: "@u1", Receiver: "@u1", Contract: "@tok0", Denom: "@tok0.voucher", Amount: "100", Via: "tx"},
+		{Op: "token_cfg", Tok: 0, Slot: 9, Amount: "0"},
+		{Op: "token_cfg", Tok: 0, Slot: 8, Amount: "7"},
+		{Op: "convert_erc20", Sender: "@u1", Receiver: "@u1", Contract: "@tok0", Denom: "@tok0.voucher", Amount: "7", Via: "tx"},
+		{Op: "convert_erc20", Sender: "@u1", Receiver: "@u1", Contract: "@tok0", Denom: "@tok0.voucher", Amount: "8", Via: "server"},
+	}})
+	// the module account as receiver / blocked module accounts / the distribution account (not blocked)
+	out = append(out, Spec{Tag: "blocked", Steps: []Step{
+		{Op: "fund", To: "@u0", Denom: "acoin", Amount: "100"},
+		{Op: "register_coin", Denom: "acoin"},
+		{Op: "deploy", Kind: kindStd, From: "@u1"},
+		{Op: "token_mint", Tok: 1, To: "@u1", Amount: "100"},
+		{Op: "register_erc20", Tok: 1},
+		{Op: "convert_coin", Sender: "@u0", Receiver: "@module", Denom: "acoin", Amount: "5", Via: "tx"},
+		{Op: "convert_coin", Sender: "@u0", Receiver: "@feecol", Denom: "acoin", Amount: "5", Via: "tx"},
+		{Op: "convert_coin", Sender: "@u0", Receiver: "@distr", Denom: "acoin", Amount: "5", Via: "tx"},
+		{Op: "convert_coin", Sender: "@u0", Receiver: "@u0", Denom: "acoin", Amount: "50", Via: "tx"},
+		{Op: "convert_erc20", Sender: "@u0", Receiver: "@module", Contract: "@tok0", Denom: "acoin", Amount: "5", Via: "tx"},
+		{Op: "convert_erc20", Sender: "@u0", Receiver: "@feecol", Contract: "@tok0", Denom: "acoin", Amount: "5", Via: "tx"},
+		{Op: "convert_erc20", Sender: "@u0", Receiver: "@distr", Contract: "@tok0", Denom: "acoin", Amount: "5", Via: "tx"},
+		{Op: "convert_erc20", Sender: "@u1", Receiver: "@module", Contract: "@tok1", Denom: "@tok1.voucher", Amount: "5", Via: "tx"},
+		{Op: "convert_erc20", Sender: "@u1", Receiver: "@distr", Contract: "@tok1", Denom: "@tok1.voucher", Amount: "5", Via: "tx"},
+		{Op: "convert_erc20", Sender: "@u1", Receiver: "@u1", Contract: "@tok1", Denom: "@tok1.voucher", Amount: "20", Via: "tx"},
+		{Op: "convert_coin", Sender: "@u1", Receiver: "@module", Denom: "@tok1.voucher", Amount: "5", Via: "tx"},
+		{Op: "convert_coin", Sender: "@u1", Receiver: "@zero", Denom: "@tok1.voucher", Amount: "5", Via: "tx"},
+		{Op: "convert_coin", Sender: "@u1", Receiver: "@fresh", Denom: "@tok1.voucher", Amount: "5", Via: "tx"},
+		{Op: "send_enabled", Denom: "acoin", Flag: false},
+		{Op: "convert_coin", Sender: "@u0", Receiver: "@u1", Denom: "acoin", Amount: "5", Via: "tx"},
+		{Op: "convert_coin", Sender: "@u0", Receiver: "@u0", Denom: "acoin", Amount: "5", Via: "tx"},
+		{Op: "toggle", Tok: 0},
+		{Op: "convert_coin", Sender: "@u0", Receiver: "@u0", Denom: "acoin", Amount: "5", Via: "tx"},
+		{Op: "toggle", Tok: 0},
+		{Op: "params", Flag: false},
+		{Op: "convert_coin", Sender: "@u0", Receiver: "@u0", Denom: "acoin", Amount: "5", Via: "tx"},
+		{Op: "convert_erc20", Sender: "@u1", Receiver: "@u1", Contract: "@tok1", Denom: "@tok1.voucher", Amount: "5", Via: "tx"},
 	}})
 	for i := range out {
 		out[i].ID = i
